@@ -162,6 +162,10 @@ def req_campaign(ctx, fams, rfams=(), consistent=True):
     """whole-request campaign: TLC-generated cases (Gen_Req) and harness-proposed ones, judged by Trace_Req"""
     for item in fams:
         fam, bound = item[0], item[1]
+        done = ctx.__dict__.setdefault("fams_done", set())
+        if (fam, bound) in done:
+            continue
+        done.add((fam, bound))
         inv = "Emit\nINVARIANT ConsistentFirst\nINVARIANT SpellingKeepsCanonicalForm"
         cases, n = tlc_gen(ctx, "Gen_Req", {"Family": fam, "Bound": bound}, "%s-%s" % (fam, bound), invariant=inv)
         if len(item) > 2 and item[2] > 1:
@@ -192,6 +196,21 @@ def logical_campaign(ctx, n):
     validate_req(ctx, tr, "R:logical", cases)
 
 
+# Families that are small and whose cases combine features (a header with a parameter, an option with a carrier, two
+# occurrences of one input, odd clocks, odd providers). All whole-request properties are judged by the same oracle
+# (Trace_Req), and seven waves of seeded changes showed that a change written against one property is often exposed
+# only by a family that had been filed under another: so every whole-request check also runs this shared corpus
+# (about 3 000 cases; families a check has already run are skipped).
+CORE = [("dup", 0), ("reqfold", 0), ("foldmethod", 0), ("manyparams", 0), ("expires", 0), ("window_frac", 0),
+        ("midnight", 0), ("scope", 0), ("akid", 0), ("ioerr", 0), ("zerokey", 0), ("spell", 0), ("s3hash", 0),
+        ("fold", 3), ("forever", 0), ("adapter", 0)]
+
+
+def core_campaign(ctx):
+    req_campaign(ctx, CORE)
+    suite_campaign(ctx)
+
+
 def suite_campaign(ctx, only=None):
     """the repository's copies of the AWS SigV4 test suite as wire requests with AWS-computed signatures: the
     specification reads each (nothing is signed here), the library validates it with folding on and off and both
@@ -199,6 +218,10 @@ def suite_campaign(ctx, only=None):
     reached the library must have been accepted when run as the suite intends (folding on, as the crate's own suite
     runner does) and its canonical request / string to sign must be the bytes of AWS's .creq / .sts files."""
     import awssuite
+    if ctx.__dict__.get("suite_done") and not only:
+        return
+    if not only:
+        ctx.suite_done = True
     d = ctx.sub("suite")
     wf = os.path.join(d, "wires.ndjson")
     items = awssuite.write_wires(wf)
@@ -273,6 +296,7 @@ def C13(ctx):
     fn_campaign(ctx, [("errtable", 0)], [])
     req_campaign(ctx, [("defects", 2 if q else 14), ("scripts", 1 if q else 0), ("degenerate", 0), ("akid", 0),
                        ("reqfold", 0), ("ioerr", 0), ("spell", 0), ("dup", 0), ("cfgmix", 0, 13 if q else 1)])
+    core_campaign(ctx)
     return dict(
         rule="MC: SigV4.tla Precedence/Taxonomy over every subset of simultaneous defects (%s) x 4 carriers x provider "
              "scripts; E: one wire request per (defect subset with <= %d defects, carrier, 3 witnesses per rule), rendered "
@@ -290,6 +314,7 @@ def C14(ctx):
                      ("accept_on_provider_error", "OkNeedsAnswer"), ("skip_ready", "CallOnlyWhenReady")):
         mc(ctx, "SigV4", "MC_SigV4_bug_%s.cfg" % bug, expect_violation=inv, label="neg-" + bug)
     req_campaign(ctx, [("scripts", 0), ("defects", 1), ("forever", 0), ("zerokey", 0), ("ioerr", 0), ("akid", 0), ("adapter", 0), ("dup", 0)])
+    core_campaign(ctx)
     return dict(
         rule="MC: provider process with delayed readiness / delayed answer / SignatureError / foreign error scripts, "
              "ProviderOnce, ProviderLast, CallOnlyWhenReady, CallsExact, OkNeedsAnswer, HistoryFree over histories of "
@@ -307,6 +332,7 @@ def C01(ctx):
                        ("s3hash", 0), ("zerokey", 0), ("fold", 1), ("foldmethod", 0), ("dup", 0)]
                  + ([] if q else [("base", 1)]))
     logical_campaign(ctx, 400 if q else 20000)
+    core_campaign(ctx)
     return dict(
         rule="MC: OkSound on SigV4.tla. E: every one of the 64 hex digits flipped, upper-casing, truncation, extension, "
              "empty signature on both carriers; valid base requests; single-component mutations of validly signed "
@@ -323,6 +349,7 @@ def C02(ctx):
                        ("s3hash", 0), ("dup", 0), ("manyparams", 0), ("expires", 0), ("cfgmix", 0, 13 if q else 1)])
     suite_campaign(ctx)
     logical_campaign(ctx, 400 if q else 20000)
+    core_campaign(ctx)
     return dict(
         rule="MC: Complete on SigV4.tla; the spelling law (an admissible respelling leaves canonical request, string-to-sign "
              "prefix, payload, access key and token unchanged) is checked by TLC on Request!Q for every generated case. "
@@ -338,6 +365,7 @@ def C03(ctx):
     q = ctx.quick
     pipeline_mc(ctx, q)
     req_campaign(ctx, [("scope", 0), ("midnight", 0), ("akid", 0), ("dup", 0)])
+    core_campaign(ctx)
     return dict(
         rule="E: 31 credential scopes (arities 0..7 parts, region/service prefix, suffix, case variant, empty, extra char, "
              "non-ASCII, swapped, terminator and date near-misses) x 3 server configurations (incl. region a prefix of the "
@@ -355,6 +383,7 @@ def C04(ctx):
     apalache(ctx, "CivilLemma", "Lemmas")
     fn_campaign(ctx, [("ts_field", 0), ("ts_seps", 0)], [])     # the textual forms themselves (hour 24, offsets, ...)
     req_campaign(ctx, [("window", 0 if q else 1), ("window_frac", 0), ("expires", 0), ("midnight", 0), ("dup", 0)])
+    core_campaign(ctx)
     return dict(
         rule="E: request instants at every whole-second offset %s from the server time plus 1 ns and 0.5 s either side of "
              "both bounds, rendered in 5 textual forms (basic Z, extended Z, +05:30, -0245, 9-digit fraction), both "
@@ -370,6 +399,7 @@ def C05(ctx):
     pipeline_mc(ctx, q)
     fn_campaign(ctx, [("vreqs", 3)], [])
     req_campaign(ctx, [("reqs", 0 if q else 2), ("reqfold", 0), ("defects", 1)])
+    core_campaign(ctx)
     return dict(
         rule="E: every combination of always-required {content-type, x-req}, conditionally required {etag, x-opt} and "
              "prefix {x-amz, x-a} sets (64) in lower / UPPER / mIxEd case through the slice, vec(new) and vec(add_*) "
@@ -387,6 +417,7 @@ def C11(ctx):
                  + ([] if q else [("base", 1)]))
     suite_campaign(ctx, only=r"header")
     logical_campaign(ctx, 400 if q else 20000)
+    core_campaign(ctx)
     return dict(
         rule="MC: NormValue idempotent, no leading/trailing/double space, non-space bytes preserved in order. E (function): "
              "every value over {SP, a, b, ',', HTAB, 0xE9} up to length %d through normalize_header_value. E (end to end): "
@@ -402,6 +433,7 @@ def C12(ctx):
     pipeline_mc(ctx, q)
     fn_campaign(ctx, [("foldsize", 0)], [])        # bodies whose folded URI would not fit (arithmetic predicate)
     req_campaign(ctx, ([("fold", 0), ("fold", 1)] if q else [("fold", 1), ("fold", 2)]) + [("s3hash", 0), ("charsets", 0 if q else 1), ("foldmethod", 0)])
+    core_campaign(ctx)
     return dict(
         rule="E: URL parameter lists x body parameter lists over names {a, b} x values {1, 2, empty} (incl. the same name in "
              "both) x 13 content types (exact, charset utf-8/UTF8/unicode-1-1-utf-8/foobar/latin1/empty, extra params, "
@@ -418,6 +450,7 @@ def C15(ctx):
     fn_campaign(ctx, [("foldsize", 0)], [])
     req_campaign(ctx, [("passthru", 0), ("fold", 0), ("reqfold", 0), ("dup", 0), ("cfgmix", 0, 13 if q else 1)] + ([] if q else [("base", 1), ("fold", 1)]))
     logical_campaign(ctx, 400 if q else 20000)
+    core_campaign(ctx)
     return dict(
         rule="E: 5 methods (incl. extension methods) x 5 HTTP versions x 5 header multisets (repeats, empty and non-UTF-8 "
              "values) x 3 body types ((), Vec<u8>, Bytes) x bodies x both carriers, with a distinct principal and session "
@@ -667,6 +700,7 @@ def C18(ctx):
 def C19(ctx):
     q = ctx.quick
     req_campaign(ctx, [("dup", 0), ("manyparams", 0)])
+    core_campaign(ctx)
     return dict(
         rule="E: 60 requests in which one authentication input is repeated with differing values, in both orders, built "
              "so that exactly one selection makes the signature valid: Authorization header x2 (AWS4 + Basic / AWS4 + "
